@@ -130,6 +130,7 @@ def case_strategy(draw, percpu=False):
             "hv_base": draw(st.sampled_from([False, False, True])),
             "sibling": draw(st.sampled_from([None, None, "smaller",
                                              "bigger"])),
+            "pcpu_extra": draw(st.sampled_from([0, 0, 1, 7, 8, 9, 15, 20])),
             "size": draw(st.integers(2, 6)), "lru": draw(st.booleans()),
             "exec": draw(st.sampled_from(["fake", "fake", "kernel"])),
             "derived": draw(st.booleans()),
@@ -210,6 +211,9 @@ def build(case, f):
           "o0": amap.globalVar("q"), "ax": amap.globalVar("x"),
           "ox": amap.globalVar("x"), "pc0": pmap.globalVar("Q"),
           "pc1": pmap.globalVar("I"), "sel2": amap.globalVar("I")})
+    # further per-CPU variables: the map value may exceed 64 bytes
+    for i in range(case.get("pcpu_extra", 0)):
+        ns[f"pcx{i}"] = pmap.globalVar("Q")
     for i in range(3):
         ns[f"ka{i}"] = amap.globalVar("q")
         ns[f"va{i}"] = amap.globalVar("q")
